@@ -7,10 +7,14 @@
 (* MC_UdpPool_bug.cfg: one field of one type is not cleared (the shape of   *)
 (* the UdpRelayPack.Data / UdpConfigPack.MapData defects) -> TLC refutes    *)
 (* NoResidue: the invariant has teeth.                                      *)
+(* Acquisition also happens inside the reader entry points: ReadOk, and a  *)
+(* read that fails half way (FailOutcomes = what it may do with the pack   *)
+(* it took).  Design: {"leak", "clean"}.  MC_UdpPool_failbug.cfg: a failed *)
+(* read puts the half-filled pack back as it is -> TLC refutes NoResidue.  *)
 (***************************************************************************)
 EXTENDS UdpPack, TLC
 
-CONSTANT MaxSteps
+CONSTANT MaxSteps, MaxObjs, FailOutcomes
 VARIABLE steps
 
 MCTypes == {"TxSql", "Relay"}
@@ -25,9 +29,21 @@ MCNext == /\ steps < MaxSteps
                                    \/ PAcquire(t, Len(obj) + 1, FALSE)
              \/ \E o \in DOMAIN obj : \E fs \in (SUBSET MCFields) \ {{}} : PFill(o, fs)
              \/ \E o \in DOMAIN obj : PRelease(o)
+             \* a read writes the fields of the datagram: one choice of fields is enough here,
+             \* the subsets are explored by Fill
+             \/ \E t \in MCTypes :
+                   \/ \E o \in bag[t] : PReadOk(t, o, TRUE, MCFields)
+                   \/ PReadOk(t, Len(obj) + 1, FALSE, MCFields)
+                   \/ \E how \in FailOutcomes :
+                         \/ \E o \in bag[t] : PFailedReadX(t, o, TRUE, MCFields, how)
+                         \/ PFailedReadX(t, Len(obj) + 1, FALSE, MCFields, how)
+          /\ Len(obj') <= MaxObjs
 MCSpec == MCInit /\ [][MCNext]_<<vars, steps>>
 
-\* an object handed out by Acquire is clean: checked on the transition
+\* an object handed out to a caller is clean, or holds exactly what the read that handed it out
+\* wrote (never more than this one step's fill): checked on the transition
 AcquireClean == [][\A o \in DOMAIN obj' :
-                     ((o \notin DOMAIN obj \/ ~obj[o].held) /\ obj'[o].held) => obj'[o].dirty = {}]_<<vars, steps>>
+                     ((o \notin DOMAIN obj \/ ~obj[o].held) /\ obj'[o].held /\ ~obj'[o].lost)
+                        => \/ obj'[o].dirty = {}
+                           \/ (o \in DOMAIN obj => obj[o].dirty = {})]_<<vars, steps>>
 =============================================================================
